@@ -105,14 +105,15 @@ type Sim struct {
 	finished bool // root task returned
 	stopReq  bool
 
-	hash      uint64
-	schedHash uint64
-	exits     int
-	states    map[uint64]struct{}
-	trace     []string
-	Panics    []Panic
-	Stats     Stats
-	Outcome   string // "finished", "stalled", "step-budget"
+	hash         uint64
+	schedHash    uint64
+	exits        int
+	states       map[uint64]struct{}
+	trace        []string
+	Panics       []Panic
+	Stats        Stats
+	Outcome      string // "finished", "stalled", "step-budget"
+	BlockedAtEnd string // where the unfinished tasks were when a run ended without finishing
 
 	lateTotal   time.Duration // sum of injected timer lateness
 	forcedJump  time.Duration // sum of spin-guard clock jumps
@@ -122,6 +123,10 @@ type Sim struct {
 	OnQuiesce func() // called by the driver at every quiescent point (cheap online invariants)
 
 	Ext map[string]interface{} // other simulated subsystems (network)
+
+	// StepFactor multiplies every step budget a scenario sets (used to tell a run that merely
+	// needs more steps from one that makes no progress).
+	StepFactor int
 }
 
 // Stats are reach counters of one run.
@@ -173,6 +178,9 @@ func New(cfg Config, dec *Decider) *Sim {
 func (s *Sim) SetConfig(f func(c *Config)) {
 	s.mu.Lock()
 	f(&s.cfg)
+	if s.StepFactor > 1 {
+		s.cfg.MaxSteps *= s.StepFactor
+	}
 	if s.cfg.MaxSteps <= 0 {
 		s.cfg.MaxSteps = 20000
 	}
@@ -717,10 +725,18 @@ func (s *Sim) Run(root func()) {
 			}
 		}
 		ntasks := len(en)
+		// due events: in a binary heap every ancestor of a due event is due as well
 		var due []*event
-		for _, e := range s.events {
-			if e.due <= s.now {
-				due = append(due, e)
+		if n := len(s.events); n > 0 && s.events[0].due <= s.now {
+			stack := []int{0}
+			for len(stack) > 0 {
+				i := stack[len(stack)-1]
+				stack = stack[:len(stack)-1]
+				if i >= n || s.events[i].due > s.now {
+					continue
+				}
+				due = append(due, s.events[i])
+				stack = append(stack, 2*i+1, 2*i+2)
 			}
 		}
 		sort.Slice(due, func(i, j int) bool {
@@ -804,6 +820,9 @@ func (s *Sim) Run(root func()) {
 		s.schedHash = fnvStr(s.schedHash, "fire")
 		s.mu.Unlock()
 		e.fire()
+	}
+	if s.Outcome != "finished" {
+		s.BlockedAtEnd = s.BlockedReport()
 	}
 	s.teardown()
 }
